@@ -1,6 +1,9 @@
 package engines
 
 import (
+	"fmt"
+	"go/token"
+	"os"
 	"strings"
 
 	"bngvet/internal/flow"
@@ -180,4 +183,71 @@ func c02NoPutBack(c *Ctx, f *ssa.Function) {
 	}
 	visit(f, 0)
 	c.R.Check("C02.A3.declineQuarantine", load.ShortFunc(f), "nothing is appended to the free list", c.P.Pos(f.Pos()), bad == "" && n > 0, bad+ifEmpty(bad, "no store to Pool.available found (rule would be vacuous)"))
+}
+
+// c12InnerMapKey (C12.P8): in the store's nested indexes an inner map is created under the key that was tested.
+// `if m[k1] == nil { m[k2] = make(...) }` with k1 != k2 re-creates (and so empties) the inner map of k2 whenever k1 is
+// absent: records restored or saved earlier under k2 vanish from that index.  For every MapUpdate installing a fresh
+// map in a receiver field's map that is guarded by a nil test of a lookup in the same field, the two keys are computed
+// the same way (same SSA value, or loads of the same field of the same base value).
+func c12InnerMapKey(c *Ctx) {
+	r := c.R
+	n := 0
+	for _, name := range []string{"SaveAllocation", "UnmarshalJSON"} {
+		f := c.fn("pkg/allocator", "MemoryAllocationStore", name)
+		if f == nil {
+			r.Check("C12.P8.innerMapKey", "MemoryAllocationStore."+name, "anchor present", "", false, "function not found")
+			continue
+		}
+		flow.Instrs(f, func(in ssa.Instruction) {
+			mu, ok := in.(*ssa.MapUpdate)
+			if !ok {
+				return
+			}
+			if _, fresh := mu.Value.(*ssa.MakeMap); !fresh {
+				return
+			}
+			field := flow.FieldOwner(mu.Map)
+			if !strings.Contains(field, "MemoryAllocationStore.") {
+				return
+			}
+			for _, ft := range flow.FactsAtInstr(in) {
+				bo, ok := ft.Cond.(*ssa.BinOp)
+				if !ok {
+					continue
+				}
+				var lk *ssa.Lookup
+				for _, side := range []ssa.Value{bo.X, bo.Y} {
+					if l, ok := side.(*ssa.Lookup); ok && flow.FieldOwner(l.X) == field {
+						lk = l
+					}
+				}
+				if lk == nil {
+					continue
+				}
+				n++
+				if os.Getenv("BNGVET_DEBUG") != "" {
+					println("P8", load.ShortFunc(f), flow.Shape(lk.Index), "|", flow.Shape(mu.Key))
+				}
+				same := lk.Index == mu.Key || keyID(lk.Index) == keyID(mu.Key)
+				r.Check("C12.P8.innerMapKey", load.ShortFunc(f), "inner map of "+field+" created under the tested key", c.P.Pos(instrPos(in)), same,
+					"the nil test looks up "+field+" under one key and the fresh inner map is installed under another: whenever the tested key is absent the inner map of the other key is replaced by an empty one, and the records filed there earlier disappear from this index (a restored store answers GetBySubscriber with one record of several)")
+			}
+		})
+	}
+	r.Check("C12.P8.innerMapKey", "MemoryAllocationStore", "guarded inner-map creations found", "", n >= 4, "fewer guarded inner-map creations than confirmed by hand (4): the rule would pass vacuously")
+}
+
+// keyID identifies a map key value: a load of field i of base b is "b.i" (two loads of one field compare equal, go/ssa
+// has no CSE); anything else is identified by the value itself.
+func keyID(v ssa.Value) string {
+	if u, ok := v.(*ssa.UnOp); ok && u.Op == token.MUL {
+		if fa, ok := u.X.(*ssa.FieldAddr); ok {
+			return fmt.Sprintf("%p.%d", fa.X, fa.Field)
+		}
+	}
+	if fl, ok := v.(*ssa.Field); ok {
+		return fmt.Sprintf("%p.%d", fl.X, fl.Field)
+	}
+	return fmt.Sprintf("%p", v)
 }
